@@ -362,8 +362,8 @@ def run_batch(prop: str, tier: str, base_seed: int, jobs: int) -> int:
             mine = [i for i in idxs if i % jobs == w]
             if not mine:
                 continue
-            job = {'prop': prop, 'tier': tier, 'base_seed': base_seed, 'recheck_every': 10, 'per_run_timeout': 180,
-                   'seed_offset': seed_offset}
+            job = {'prop': prop, 'tier': tier, 'base_seed': base_seed, 'recheck_every': int(os.environ.get('VERIF_RECHECK', 10)),
+                   'per_run_timeout': 180, 'seed_offset': seed_offset}
             if cases is not None:
                 job['cases'] = [(i, cases[i]) for i in mine if i < seed_offset]
                 job['indexes'] = [i for i in mine if i >= seed_offset]
